@@ -158,10 +158,9 @@ func CheckConc(e *Env) (int, error) {
 	if err != nil {
 		return 2, err
 	}
-	variants := []string{"asm"}
-	if e.Tier == "thorough" {
-		variants = append(variants, "purego")
-	}
+	// both build configurations in both tiers (rounds alternate): code that
+	// exists only under the purego constraint has its own shared state
+	variants := []string{"asm", "purego"}
 	bins := concBins{plain: map[string]string{}, race: map[string]string{}, sites: sites}
 	for _, v := range variants {
 		if bins.plain[v], err = e.Build(concVariant(v, overlay)); err != nil {
@@ -199,7 +198,7 @@ func CheckConc(e *Env) (int, error) {
 	nextRace, nextPlain := 0, 0
 	start := time.Now()
 	for round := 0; ; round++ {
-		if round > 0 && time.Since(start) > budget {
+		if round >= len(variants) && time.Since(start) > budget {
 			break
 		}
 		var jobs []*Job
